@@ -219,7 +219,7 @@ impl Property for C11 {
         }
     }
     fn random_cases(&self, tier: Tier) -> u64 {
-        tier.pick(4_000, 60_000)
+        tier.pick(60_000, 300_000)
     }
     fn tape_len(&self, _t: Tier) -> usize {
         400
